@@ -132,6 +132,9 @@ type instance struct {
 	delivered bool
 }
 
+// number of failing counter reads served so far (all cases of this process): odd ones answer -1, nil
+var revFails int64
+
 type harness struct {
 	mu       sync.Mutex
 	reps     []*fakeRep
@@ -397,6 +400,11 @@ func (in *instance) RemainSnapshots() (int, error) { return 100, nil }
 func (in *instance) GetRevisionCounter() (int64, error) {
 	defer in.lock()()
 	if in.h.flt(in.rep.a, "rev") {
+		// backend/remote reports a counter it could not read either as an error or as -1 with a nil error
+		// (the replica's own answer to a failed read of its counter block): alternate between the two
+		if atomic.AddInt64(&revFails, 1)%2 == 1 {
+			return -1, nil
+		}
 		return 0, errors.New("rev failed")
 	}
 	return in.rep.rev, nil
